@@ -35,6 +35,13 @@ PROGS = [
     "# 3 \"m.c\"\nm() { } m2(x) { }",
     "\n\n   k() { } static k2(const n) { }",
 ]
+MEDIUM = [
+    "int a = (int[]){1, 2}[0]; int z;",
+    "\n\n  int bb = 1 + (char)2 + sizeof(int);",
+    "typedef int T; void f(void) { T * p; int q = sizeof (T[2]){0}; }",
+    "# 5 \"m3.c\"\nint T = 3; int w = (T) * 2; k() { return (T)(1); }",
+    "struct S { int m : 2; } s = { .m = (short)1 }; enum { E = sizeof(struct S) };",
+]
 LONG = [
     "# 11 \"l1.c\"\ntypedef int T; typedef T *PT; struct S { T a; PT b; }; T f(T x) { { T T; T * x; } return (T)x; }\n# 9 \"l1.h\"\nT g; q1() { return 1; }",
     "# 22 \"l2.c\"\nint T, PT; int h(int S) { T * PT; S = T + PT; return sizeof T; }\n#pragma p q\nint k = T; static q2(const n) { return n; }",
@@ -182,6 +189,28 @@ def run(tier):
             ctx.fail("module-level state changed during a step of instance %s" % frame[:3], dict(kind="frame", progs=progs))
         ctx.note("schedules_%s" % "_".join(map(str, idxs)), len(scheds))
         ctx.sample(dict(programs=progs, a_schedule=scheds[len(scheds) // 2]))
+    # two-switch schedules x^k y^j x* y* of medium-sized programs: every pair (how far A is, how far B is) meets once.
+    # Complete within its shape; it is the shape in which state shared through a class attribute or a module-level
+    # object of one parse is clobbered while another sits between saving and using it.
+    pairs = [(0, 1), (0, 2), (1, 2), (2, 3), (3, 4), (0, 4)] if tier == "quick" else \
+        [(a, b) for a in range(len(MEDIUM)) for b in range(len(MEDIUM)) if a != b]
+    n2 = 0
+    for a, b in pairs:
+        progs = [MEDIUM[a], MEDIUM[b]]
+        st = [steps_of(p) for p in progs]
+        solo = [run_schedule([p if j == i else "" for j in range(2)], [i] * (st[i] + 4))[i] for i, p in enumerate(progs)]
+        for k in range(0, st[0] + 1):
+            for j in range(1, st[1] + 1):
+                sched = [0] * k + [1] * j
+                r = run_schedule(progs, sched)
+                n2 += 1
+                if r != solo:
+                    bad = [i for i in range(2) if r[i] != solo[i]]
+                    ctx.fail("two-switch schedule (A runs %d token() calls, then B %d, then A and B to the end) changes the result of parse %s (MEDIUM %d, %d)" % (
+                        k, j, bad, a, b), dict(kind="schedule", progs=progs, sched=sched))
+                    break
+    total += n2
+    ctx.note("two_switch_schedules", n2)
     ctx.count(total, nontrivial=total, traces=total)
     # random schedules of long programs, validated per instance against ParserTrace
     nlong = 40 if tier == "quick" else 2000
